@@ -233,6 +233,9 @@ def classify(st):
                 return ['dbg']
             if len(st.orelse) == 1 and isinstance(st.orelse[0], ast.Expr) and _is_emit(st.orelse[0].value, 'nodbg'):
                 return ['dbg_else']
+            if len(st.orelse) == 1 and isinstance(st.orelse[0], ast.Expr) and isinstance(st.orelse[0].value, ast.Constant) and st.orelse[0].value.value == 0 \
+                    and type(st.orelse[0].value.value) is int:
+                return ['dbg_else0']
             if len(st.orelse) == 1 and classify(st.orelse[0]) == ['elif_if']:
                 return ['dbg_elif']
             if len(st.orelse) == 1 and isinstance(st.orelse[0], ast.If) and ast.dump(st.orelse[0]) == ast.dump(ast.parse(STMT[('dbg_chain',)]).body[0].orelse[0]):
